@@ -1,2 +1,11 @@
 #!/bin/sh
-exit 0
+# Builds the verification engine offline and warms the build cache of /repo (tag verif).
+set -e
+export GOFLAGS=-mod=mod GOPROXY=off GOSUMDB=off GOTOOLCHAIN=local
+cd "$(dirname "$0")"
+mkdir -p bin evidence replays work
+(cd govc && go build -o ../bin/govc .)
+REPO=${VERIF_REPO:-/repo}
+(cd "$REPO" && go list -export -tags=verif ./x/... ./app/... ./pkg/... >/dev/null 2>&1 || true)
+(cd "$REPO" && go test -vet=off -count=1 -run '^$' ./x/... ./pkg/... ./app/... >/dev/null 2>&1 || true)
+echo "setup ok"
